@@ -61,14 +61,17 @@ func ParseDuration(s string) (Duration, error) {
 	unitI := 0
 
 	negative := int64(1)
+	// limit is the largest representable magnitude: 2^63-1, or 2^63 for negative durations
+	limit := uint64(math.MaxInt64)
 	if s[i] == '-' {
 		negative = int64(-1)
+		limit++
 		i++
 	}
 
 	var (
-		total    int64
-		value    int64
+		total    uint64
+		value    uint64
 		unit     string
 		hasValue bool
 	)
@@ -76,8 +79,8 @@ func ParseDuration(s string) (Duration, error) {
 	// ([0-9]+)(d|h|m|s|ms) ...
 	for i < len(s) && unitI < len(unitOrder) {
 		if unicode.IsDigit(rune(s[i])) {
-			digit := int64(s[i] - '0')
-			if value > (math.MaxInt64-digit)/10 {
+			digit := uint64(s[i] - '0')
+			if value > (limit-digit)/10 {
 				return Duration{}, fmt.Errorf("%w: overflow", errDuration)
 			}
 			value = value*10 + digit
@@ -108,12 +111,12 @@ func ParseDuration(s string) (Duration, error) {
 				return Duration{}, fmt.Errorf("%w: unexpected unit '%s'", errDuration, unit)
 			}
 
-			millis := unitToMillis[unit]
-			if millis > 0 && value > math.MaxInt64/millis {
+			millis := uint64(unitToMillis[unit])
+			if millis > 0 && value > limit/millis {
 				return Duration{}, fmt.Errorf("%w: overflow", errDuration)
 			}
 			product := value * millis
-			if total > math.MaxInt64-product {
+			if total > limit-product {
 				return Duration{}, fmt.Errorf("%w: overflow", errDuration)
 			}
 			total = total + product
@@ -135,7 +138,7 @@ func ParseDuration(s string) (Duration, error) {
 		return Duration{}, fmt.Errorf("%w: invalid duration", errDuration)
 	}
 
-	return Duration{value: negative * total}, nil
+	return Duration{value: negative * int64(total)}, nil
 }
 
 // Equal returns true if the input represents the same duration
@@ -183,6 +186,12 @@ func (d Duration) String() string {
 	}
 
 	days := remaining / consts.MillisPerDay
+	if remaining == math.MinInt64 {
+		// the magnitude of the minimum duration (2^63 ms) does not fit in an int64:
+		// peel off the days using the unsigned magnitude
+		days = int64(uint64(remaining) / uint64(consts.MillisPerDay))
+		remaining = int64(uint64(remaining) % uint64(consts.MillisPerDay))
+	}
 	if days > 0 {
 		res.WriteString(strconv.FormatInt(days, 10))
 		res.WriteByte('d')
